@@ -86,6 +86,8 @@ pub struct GenFlags {
     pub close: bool,
     pub force_wake: Option<bool>,
     pub partial: bool,
+    /// thorough tier: a quarter of the runs use larger topologies and longer scripts
+    pub large: bool,
 }
 
 pub fn gen_script(rng: &mut Rng, flags: GenFlags) -> PsScript {
@@ -96,9 +98,12 @@ pub fn gen_script(rng: &mut Rng, flags: GenFlags) -> PsScript {
     };
     let n_subs = if flags.partial {
         *rng.pick(&[0usize, 0, 1, 2])
+    } else if flags.large {
+        rng.usize(3, 8)
     } else {
         *rng.pick(&[0usize, 1, 1, 1, 2, 2, 2, 3, 3, 4])
     };
+    let n_pubs = if flags.large && !flags.partial { rng.usize(2, 5) } else { n_pubs };
     let boundaries: Vec<usize> = (0..n_subs).map(|_| rng.usize(1, 4)).collect();
     let gates: Vec<bool> = (0..n_subs).map(|_| !rng.chance(1, 4)).collect();
     let wake_driven = flags.force_wake.unwrap_or_else(|| rng.chance(1, 2));
@@ -107,7 +112,7 @@ pub fn gen_script(rng: &mut Rng, flags: GenFlags) -> PsScript {
     let mut reg_sub = vec![false; n_subs];
     let mut ended = vec![false; n_pubs];
     let mut gate = gates.clone();
-    let mut budget = rng.usize(0, 40);
+    let mut budget = if flags.large { rng.usize(20, 120) } else { rng.usize(0, 40) };
     let upfront = rng.chance(1, 2);
     if upfront {
         let mut regs: Vec<PsStep> = (0..n_pubs).map(PsStep::RegPub).chain((0..n_subs).map(PsStep::RegSub)).collect();
@@ -121,7 +126,7 @@ pub fn gen_script(rng: &mut Rng, flags: GenFlags) -> PsScript {
             steps.push(r);
         }
     }
-    let len = rng.usize(3, 60);
+    let len = if flags.large { rng.usize(40, 200) } else { rng.usize(3, 60) };
     for _ in 0..len {
         let mut choices: Vec<(u64, u8)> = vec![];
         if reg_pub.iter().any(|r| !r) {
@@ -704,12 +709,12 @@ pub struct PubSubFamily {
     pub flags: GenFlags,
 }
 
-pub static PS_CLEAN: PubSubFamily = PubSubFamily { name: "pubsub-clean", flags: GenFlags { fails: false, two_fails: false, stream_errs: false, close: false, force_wake: None, partial: false } };
-pub static PS_WAKE: PubSubFamily = PubSubFamily { name: "pubsub-wake", flags: GenFlags { fails: false, two_fails: false, stream_errs: true, close: false, force_wake: Some(true), partial: false } };
-pub static PS_PARTIAL: PubSubFamily = PubSubFamily { name: "pubsub-partial-topology", flags: GenFlags { fails: false, two_fails: false, stream_errs: true, close: false, force_wake: Some(true), partial: true } };
-pub static PS_SHUTDOWN: PubSubFamily = PubSubFamily { name: "pubsub-shutdown", flags: GenFlags { fails: false, two_fails: false, stream_errs: false, close: true, force_wake: None, partial: false } };
-pub static PS_SHUTDOWN_FAIL: PubSubFamily = PubSubFamily { name: "pubsub-shutdown-with-failures", flags: GenFlags { fails: true, two_fails: true, stream_errs: true, close: true, force_wake: None, partial: false } };
-pub static PS_FAIL_RANDOM: PubSubFamily = PubSubFamily { name: "pubsub-fail-random", flags: GenFlags { fails: true, two_fails: true, stream_errs: true, close: false, force_wake: None, partial: false } };
+pub static PS_CLEAN: PubSubFamily = PubSubFamily { name: "pubsub-clean", flags: GenFlags { fails: false, two_fails: false, stream_errs: false, close: false, force_wake: None, partial: false, large: false } };
+pub static PS_WAKE: PubSubFamily = PubSubFamily { name: "pubsub-wake", flags: GenFlags { fails: false, two_fails: false, stream_errs: true, close: false, force_wake: Some(true), partial: false, large: false } };
+pub static PS_PARTIAL: PubSubFamily = PubSubFamily { name: "pubsub-partial-topology", flags: GenFlags { fails: false, two_fails: false, stream_errs: true, close: false, force_wake: Some(true), partial: true, large: false } };
+pub static PS_SHUTDOWN: PubSubFamily = PubSubFamily { name: "pubsub-shutdown", flags: GenFlags { fails: false, two_fails: false, stream_errs: false, close: true, force_wake: None, partial: false, large: false } };
+pub static PS_SHUTDOWN_FAIL: PubSubFamily = PubSubFamily { name: "pubsub-shutdown-with-failures", flags: GenFlags { fails: true, two_fails: true, stream_errs: true, close: true, force_wake: None, partial: false, large: false } };
+pub static PS_FAIL_RANDOM: PubSubFamily = PubSubFamily { name: "pubsub-fail-random", flags: GenFlags { fails: true, two_fails: true, stream_errs: true, close: false, force_wake: None, partial: false, large: false } };
 
 impl Family for PubSubFamily {
     fn name(&self) -> &'static str {
@@ -718,8 +723,10 @@ impl Family for PubSubFamily {
     fn engine(&self) -> &'static str {
         "R"
     }
-    fn generate(&self, _property: &str, _tier: Tier, _index: u64, _total: u64, rng: &mut Rng) -> Value {
-        serde_json::to_value(gen_script(rng, self.flags)).unwrap()
+    fn generate(&self, _property: &str, tier: Tier, _index: u64, _total: u64, rng: &mut Rng) -> Value {
+        let mut flags = self.flags;
+        flags.large = tier == Tier::Thorough && rng.chance(1, 4);
+        serde_json::to_value(gen_script(rng, flags)).unwrap()
     }
     fn execute(&self, property: &str, body: &Value, opts: &ExecOpts) -> Outcome {
         let sc: PsScript = match serde_json::from_value(body.clone()) {
